@@ -491,7 +491,7 @@ def c16_streams(tier, rng):
     orc = {"spec", "wake"}
     aorc = {"aspec", "alive"}
     na = 8000 if q else 200000
-    gl = [(3, 1), (3, 2)] if q else [(5, 1), (4, 2)]
+    gl = [(3, 1), (3, 2)] if q else [(4, 1), (4, 2)]
     gcases = []
     for (l, k) in gl:
         gcases += gens.aobs_exhaustive(l, k)
